@@ -1361,3 +1361,16 @@ package machine
 //@   ensures  len: len(ret) == len(idxs) && fresh(ret)
 //@   ensures  def: forall i int :: 0 <= i && i < len(idxs) ==> ret[i] == (idxs[i] < len(t) ? t[idxs[i]] : 0)
 //@   loop 1 invariant def: len(ret) == len(idxs) && fresh(ret) && !isnil(ret) && (forall j int :: 0 <= j && j < len(idxs) ==> ret[j] == ((j < idx1 && idxs[j] < len(t)) ? t[idxs[j]] : 0))
+
+//@ func (t Time) DiffSince(before Time) (ret Time)
+//@   props C17 C20
+//@   ensures len: len(ret) == len(t) && fresh(ret)
+//@   ensures def: len(t) == len(before) ==> (forall i int :: 0 <= i && i < len(t) ==> ret[i] == u64(t[i] - before[i]))
+//@   loop 1 invariant def: len(ret) == len(t) && fresh(ret) && !isnil(ret) && len(t) == len(before) && (forall j int :: 0 <= j && j < i ==> ret[j] == u64(t[j] - before[j]))
+
+//@ func (t Time) NonZeroStates() (ret []int)
+//@   props C17 C20
+//@   ensures range: forall k int :: 0 <= k && k < len(ret) ==> 0 <= ret[k] && ret[k] < len(t) && t[ret[k]] != 0
+//@   ensures all:   forall i int :: 0 <= i && i < len(t) && t[i] != 0 ==> mem(ret, i)
+//@   loop 1 invariant range: forall k int :: 0 <= k && k < len(ret) ==> 0 <= ret[k] && ret[k] < idx1 && t[ret[k]] != 0
+//@   loop 1 invariant all:   forall i int :: 0 <= i && i < idx1 && t[i] != 0 ==> mem(ret, i)
